@@ -181,6 +181,7 @@ type Func struct {
 type Program struct {
 	Aliases []*Type // nested list element aliases etc. (Type.Alias set)
 	Structs []*Type
+	Pre     []Stmt // global declarations that functions refer to (printed and executed before everything else)
 	Funcs   []*Func
 	Main    []Stmt
 	Args    []string // command line arguments the reference run uses (see Arg)
